@@ -98,6 +98,7 @@ DEFAULT_MOLS = {
     "h2": ([1, 1], [[0.0, 0.0, 0.0], [0.74, 0.0, 0.1]]),
     "ch4": ([6, 1, 1, 1, 1], [[0.0, 0.0, 0.0], [0.63, 0.63, 0.63], [-0.63, -0.63, 0.63], [-0.63, 0.63, -0.63], [0.63, -0.63, -0.63]]),
     "co": ([8, 6], [[0.0, 0.0, 0.0], [1.13, 0.1, 0.0]]),
+    "ch2o": ([8, 6, 1, 1], [[0.0, 0.0, 0.0], [1.22, 0.01, 0.02], [1.82, 0.94, 0.05], [1.81, -0.93, -0.04]]),
     "oh-": ([8, 1], [[0.0, 0.0, 0.0], [0.96, 0.03, 0.02]]),
     "h2s": ([16, 1, 1], [[0.0, 0.0, 0.0], [1.34, 0.03, 0.0], [-0.05, 1.34, 0.02]]),
     "sih4": ([14, 1, 1, 1, 1], [[0.0, 0.0, 0.0], [0.85, 0.85, 0.85], [-0.85, -0.85, 0.85], [-0.85, 0.85, -0.85], [0.85, -0.85, -0.85]]),
@@ -509,7 +510,7 @@ def _sh_child(sc, prefix, stop_at, q):
         q.put({"exc": traceback.format_exc()[-1500:]})
 
 
-def surface_hopping_run(sc: Dict[str, Any], stop_at: Optional[int] = None, timeout=900) -> Dict[str, Any]:
+def surface_hopping_run(sc: Dict[str, Any], stop_at: Optional[int] = None, timeout=900, values: bool = False) -> Dict[str, Any]:
     """real SurfaceHoppingDynamics run (optionally stopped right after the checkpoint of step `stop_at` and resumed);
     returns the step labels of every HDF5 stream incl. /data/nonadiabatic and whether each NA row was written"""
     import h5py
@@ -536,6 +537,11 @@ def surface_hopping_run(sc: Dict[str, Any], stop_at: Optional[int] = None, timeo
                     act = f["data/nonadiabatic/active_surface"][...]
                     amp = f["data/nonadiabatic/electronic_amplitudes"][...]
                     o["na_rows_written"] = [bool(a >= 1 and abs(float((x ** 2).sum()) - 1.0) < 1e-2) for a, x in zip(act, amp)]
+                if values:
+                    # every dataset of the file, by value (resumed = uninterrupted is a statement about all of them)
+                    vals = {}
+                    f.visititems(lambda name, obj: vals.__setitem__(name, obj[...]) if isinstance(obj, h5py.Dataset) and obj.dtype.kind in "fiub" else None)
+                    o["values"] = vals
                 out[m] = o
         return out
     finally:
